@@ -88,6 +88,7 @@ def enum_ops(s, *, invalid=True):
             others = [x for x in nodes if not any(x is c for c in m.kids(P_))]
             if others:
                 out.append(["node", others[0].uid])
+            out.append(["raw", ["str", "float", "tuple"][len(K) % 3]])
         return out
 
     kinds = [None, "kz"] if typed else [None]
@@ -189,6 +190,9 @@ def enum_ops(s, *, invalid=True):
         # meta
         yield {"op": "set_meta", "node": x.uid, "key": "k", "value": 1}
         yield {"op": "set_meta", "node": x.uid, "key": "k", "value": None}
+        for falsy in (0, False, "", []):
+            yield {"op": "set_meta", "node": x.uid, "key": "k", "value": falsy}
+            yield {"op": "set_meta", "node": x.uid, "key": "new", "value": falsy}
         yield {"op": "update_meta", "node": x.uid, "values": {"a": 1}, "replace": False}
         yield {"op": "update_meta", "node": x.uid, "values": {"a": 1}, "replace": True}
         yield {"op": "clear_meta", "node": x.uid, "key": None}
